@@ -52,14 +52,32 @@ pub struct TestFn {
     pub writes: Vec<u8>,
 }
 
+impl TestFn {
+    /// A quarter of the functions (a pure function of the declaration) hand out
+    /// their access lists in heap-allocated `TypeIds` (capacity reserved up front,
+    /// as a composite function merging its steps' lists does), whatever the length.
+    fn heap_lists(&self) -> bool {
+        (self.id + 3 * self.reads.len() + 5 * self.writes.len()) % 4 == 1
+    }
+    fn list(&self, tys: &[u8]) -> TypeIds {
+        if self.heap_lists() {
+            let mut t = TypeIds::with_capacity(16);
+            t.extend(tys.iter().map(|i| type_id(*i)));
+            t
+        } else {
+            tys.iter().map(|i| type_id(*i)).collect()
+        }
+    }
+}
+
 impl DataAccessDyn for TestFn {
     fn borrows(&self) -> TypeIds {
         ACCESS_CALLS.with(|c| c.set(c.get() + 1));
-        self.reads.iter().map(|i| type_id(*i)).collect()
+        self.list(&self.reads)
     }
     fn borrow_muts(&self) -> TypeIds {
         ACCESS_CALLS.with(|c| c.set(c.get() + 1));
-        self.writes.iter().map(|i| type_id(*i)).collect()
+        self.list(&self.writes)
     }
 }
 
